@@ -338,8 +338,12 @@ def filter_shard(arg):
                 oc = "ok" if res[0] == "ok" else res[1]
                 p.sig((fname, kind.rstrip("012"), oc))
                 if changed:
-                    sig = f"C19/filter-mutated/{fname}/{'value' if kind.startswith('value') else 'argument'}/{pytype(tname).__name__}"
-                    rank = (len(expr), tname)
+                    # signature names the object that changed: its role in the expression and its type
+                    key = changed[0]
+                    head = expr.split("|", 1)[0]
+                    role = "value" if key in head else "argument"
+                    sig = f"C19/filter-mutated/{fname}/{role}/{type(before[key]).__name__}"
+                    rank = (len(expr), not expr.startswith("c|"), tname)
                     det = {
                         "msg": f"[async={asy}] {{{{ {expr} }}}} with c={describe(before['c'])}, w={describe(before['w'])} changed "
                                f"{', '.join(f'{c}: {describe(before[c])} -> {describe(after[c])}' for c in changed)} "
